@@ -109,7 +109,36 @@ def run(ctx) -> None:
                    "%s reads the launch environment in an unrestricted way (%s): variables the environment did not import by "
                    "name leak into the task's environment" % (q, short(p, 70)),
                    construct="%s: %s" % (q.split(".")[-1], short(p, 90)))
-    ctx.floor("C17.R1-launch-env-reads", n_reads, 4, "reads of os.environ in the environment builders")
+    ctx.floor("C17.R1-launch-env-reads", n_reads, 2, "reads of os.environ in the environment builders")
+    # every name the environment imports is visited: a launch variable that is missing skips THAT name only.  A loop whose body reads
+    # os.environ[<loop variable>] must not sit inside a try whose handler swallows the KeyError - the first missing name would end the
+    # loop and silently drop every import listed after it
+    n_imp = 0
+    for f in (efn, ewn, den):
+        q = source.qualname(f)
+        for lp in source.walk_own(f):
+            if not (isinstance(lp, ast.For) and isinstance(lp.target, ast.Name)):
+                continue
+            reads = [x for x in ast.walk(lp) if isinstance(x, ast.Subscript) and is_os_environ(x.value) and isinstance(x.slice, ast.Name) and x.slice.id == lp.target.id]
+            if not reads:
+                continue
+            n_imp += 1
+            swallowing = []
+            for a in source.ancestors(lp):
+                if a is f:
+                    break
+                if isinstance(a, ast.Try) and any(any(lp is y for y in ast.walk(st)) for st in a.body):
+                    for h in a.handlers:
+                        types = {"*"} if h.type is None else {source.src(t_).split(".")[-1] for t_ in (h.type.elts if isinstance(h.type, ast.Tuple) else [h.type])}
+                        if types & {"*", "KeyError", "LookupError", "Exception", "BaseException"} and not any(isinstance(y, ast.Raise) for st in h.body for y in ast.walk(st)):
+                            swallowing.append(h)
+            ctx.ob("C17.R1-launch-env-reads", lp, not swallowing,
+                   "a missing launch variable skips only its own name in the import loop of %s" % q.split(".")[-1] if not swallowing else
+                   "the loop over the imported names in %s sits inside a try whose handler swallows the KeyError of os.environ[<name>]: the first "
+                   "name the launch environment lacks ends the loop, every import listed after it is dropped (DEFAULTS: PATH:PYTHONPATH:"
+                   "LD_LIBRARY_PATH without PYTHONPATH loses LD_LIBRARY_PATH) and a self-reference of a later name is expanded twice"
+                   % q.split(".")[-1], construct="%s: import loop <- per-name handling of a missing variable" % q.split(".")[-1])
+    ctx.floor("C17.R1-launch-env-reads", n_imp, 1, "loops that import launch variables by name")
     # (d) expandvars after the environment's own variables
     ev = [c for c in source.calls_in(ewn, include_nested=True) if call_name(c) == "os.path.expandvars"]
     ctx.require(bool(ev), "anchor missing: os.path.expandvars in environmentWithName")
